@@ -235,11 +235,14 @@ Proof.
   - apply (IH _ mid Hb).
 Qed.
 
-Lemma arm_split_concat {A} (lo hi : A -> Z) l : concat (arm_split lo hi l) = l.
+Lemma arm_split_with_concat {A} (lo hi : A -> Z) r l : concat (arm_split_with lo hi r l) = l.
 Proof.
-  unfold arm_split. destruct l as [|x t]; [reflexivity|].
-  destruct (arm_cut lo hi (x :: t)) as [j|]; cbn [concat]; rewrite app_nil_r; [apply firstn_skipn|reflexivity].
+  unfold arm_split_with. destruct l as [|x t]; [reflexivity|].
+  destruct (arm_cut_with lo hi r (x :: t)) as [j|]; cbn [concat]; rewrite app_nil_r; [apply firstn_skipn|reflexivity].
 Qed.
+
+Lemma arm_split_concat {A} (lo hi : A -> Z) l : concat (arm_split lo hi l) = l.
+Proof. apply arm_split_with_concat. Qed.
 
 Definition chrom_pairs (m : method) (fl : list fbin) (bps : list Z) : list pr :=
   arms_pairs m (chrom_arms fl) 0 bps.
